@@ -15,6 +15,63 @@ def fld(name, bits, base='timer'):
     return S(bits, '%s.%s' % (base, name), ('field', OWNER, name, ty))
 
 
+def _derived_loop_vars(body):
+    """{loop-carried local symbol: (its value as a term over the fields at the head of an iteration, entry term)} for the
+    locals whose entry value is a function of the object's fields and for which `local == f(fields)` is inductive on every
+    iteration path in `body`"""
+    import re
+    from .. import bvproof
+    if not body:
+        return {}
+    inits = {}
+    for e in body[0].state.events:
+        if e[0] == 'loopinit' and isinstance(e[1], tuple) and e[1][0] == 's' and e[2] is not None and T.is_int(e[2]):
+            inits[e[1]] = e[2]
+    out = {}
+    for v, init in inits.items():
+        mm = re.search(r':_(\d+)$', v[2])
+        fsyms = [x for x in syms_of(init)]
+        if not mm or not fsyms or not all(x[3] and x[3][0] == 'field' and not x[2].startswith('loop') for x in fsyms):
+            continue
+        n = int(mm.group(1))
+        good = True
+        head_t = None
+        for r in body:
+            allsyms = set()
+            for d in r.state.decisions:
+                allsyms |= set(syms_of(d[0]))
+            for e in r.state.events:
+                if e[0] == 'store' and T.is_int(e[3]):
+                    allsyms |= set(syms_of(e[3]))
+            heads = {x[3][2]: x for x in allsyms if x[3] and x[3][0] == 'field' and x[2].startswith('loop')}
+            to_head = {x: heads.get(x[3][2], x) for x in fsyms}
+            post = dict(to_head)
+            for e in r.state.events:
+                if e[0] == 'store' and T.is_int(e[3]):
+                    for x in fsyms:
+                        if e[2] and e[2][-1][1] == x[3][2]:
+                            post[x] = e[3]
+            ht = bvproof.subst(init, to_head)
+            if head_t is None:
+                head_t = ht
+            elif head_t != ht:
+                good = False
+                break
+            new = r.state.mem.get(('L', 1, n))
+            if new is None or not T.is_int(new):
+                good = False
+                break
+            env = r.state.env.copy()
+            env.assume_eq(O(1, 'eq', v, ht), 1)
+            if new != bvproof.subst(init, post) and \
+                    bvproof.equal_under(new, bvproof.subst(init, post), env, v[1]) is not True:
+                good = False
+                break
+        if good and head_t is not None:
+            out[v] = (head_t, init)
+    return out
+
+
 def run(ctx, chk):
     chk.rule('C13.1', 'D', 'TAC & 3 selects divider bit 9/3/5/7 (periods 1024/16/64/256); TAC & 4 enables', floor=5)
     chk.rule('C13.2', 'D', 'DIV is bits 8-15 of the cycle counter; writing DIV zeroes it; it is otherwise only advanced', floor=3)
@@ -185,6 +242,10 @@ def run(ctx, chk):
     why = ''
     uniform = True
     guard_vars = set()
+    # loop-carried locals that cache a function of the timer's fields (`level = cycle_count & mask`, carried from tick to
+    # tick): the candidate invariant "local == f(fields at the head of the iteration)" is read from the local's value at
+    # the loop entry and proved by induction over the iteration paths; it is then a hypothesis of the step relation
+    derived = _derived_loop_vars(body)
     try:
         m2 = BDD()
         conv2 = TermBV(m2)
@@ -197,9 +258,10 @@ def run(ctx, chk):
             stores = [e for e in r.state.events if e[0] == 'store' and e[2][-1][1] == 'cycle_count']
             decs = r.state.decisions
             cnt_syms = [s_ for d in decs for s_ in syms_of(d[0]) if s_[2].startswith('loopvar:') and
-                        not (s_[3] and s_[3][0] == 'field')]
+                        not (s_[3] and s_[3][0] == 'field') and s_ not in derived]
+
             guard_vars |= set(cnt_syms)
-            fs = valfn.field_syms([d[0] for d in decs] + [e[3] for e in stores])
+            fs = valfn.field_syms([d[0] for d in decs] + [e[3] for e in stores] + [h_ for h_, _ in derived.values()])
             X, Mk = fs.get('cycle_count'), fs.get('timer_clock_mask')
             if X is None or len(stores) != 1 or not equal_mod(stores[0][3], O(32, 'add', X, C(32, 1)), env, 32):
                 edge_ok, why = False, 'an iteration does not advance the divider by exactly 1 (%s)' % [fmt(s_[3]) for s_ in stores]
@@ -207,6 +269,8 @@ def run(ctx, chk):
             ren = {X: Xs}
             if Mk is not None:
                 ren[Mk] = Ms
+            for v_, (head_t, _) in derived.items():
+                ren[v_] = bvproof.subst(head_t, dict(ren))      # proved equal at the head of every iteration
             _, _, K = bvproof.setup(env, m2, conv2, ren, only={'X', 'MASK'})
             if calls:
                 fire2 = m2.OR(fire2, K)
